@@ -267,16 +267,19 @@ theorem run_switch (selfOk : Val → Bool) (k : Kind) (l : Layout) (calls : List
 
 theorem runOne_emitOf_noself (selfOk : Val → Bool) (k : Kind) (hk : k.selfOffset = 0) (cj : Nat) (c : Call)
     (s : Stack) (hn : c.nargs = s.length) :
-    runOne selfOk (emitOf k (Layout.fixed k) cj c) s = .ret [⟨cj, c.ov, none, s⟩] c.nresults := by
+    runOne selfOk (emitOf k (Layout.fixed k) cj c) s =
+      if argsOk s c.argCls then .ret [⟨cj, c.ov, none, s⟩] c.nresults else .error [] := by
   have h := map_at_idxFrom s c.nargs 0 (by omega)
   simp only [Nat.zero_add, List.drop_zero] at h
   rw [hn, List.take_length] at h
-  simp [runOne, runEmit, emitOf, selfIdxOf, Layout.fixed, hk, hn, h]
+  by_cases ha : argsOk s c.argCls <;>
+    simp [runOne, runEmit, emitOf, selfIdxOf, Layout.fixed, hk, hn, h, ha]
 
 theorem runOne_emitOf_self (selfOk : Val → Bool) (k : Kind) (hk : k.selfOffset = 1) (cj : Nat) (c : Call)
     (self : Val) (args : List Val) (hn : c.nargs = args.length) :
     runOne selfOk (emitOf k (Layout.fixed k) cj c) (self :: args) =
-      if selfOk self then .ret [⟨cj, c.ov, some self, args⟩] c.nresults else .error [] := by
+      if argsOk args c.argCls && selfOk self then .ret [⟨cj, c.ov, some self, args⟩] c.nresults
+      else .error [] := by
   have h := map_at_idxFrom (self :: args) c.nargs 1 (by simp; omega)
   simp only [List.drop_succ_cons, List.drop_zero] at h
   have h2 : List.take c.nargs args = args := List.take_of_length_le (by omega)
@@ -284,7 +287,7 @@ theorem runOne_emitOf_self (selfOk : Val → Bool) (k : Kind) (hk : k.selfOffset
   simp only [runOne, runEmit, emitOf, selfIdxOf, Layout.fixed, hk]
   simp only [Nat.reduceAdd] at h ⊢
   simp only [h, Stack.at]
-  by_cases hs : selfOk self <;> simp [hs]
+  by_cases ha : argsOk args c.argCls <;> by_cases hs : selfOk self <;> simp [hs, ha]
 
 /-! ### first match -/
 
